@@ -30,6 +30,7 @@ TEXTS = [
     "class C:\n  def g(self):\n    while True:\n        x = = 1\n", "a = 1\n", "f(x := 1)\nglobal a\nbreak\n",
     "f'{a!r:>{w}}'\nawait b\n" + "nonlocal z\n", "if x:\n  if y:\n    z\nw", "def g(*, key, **kw): pass\nlambda a, /, b: a\n",
     "l = [i for i in range(3)]\nreturn 1\n*a, *b = c\n",
+    'x = "a\\d" + b"\\777" + u"\\N{DASH}"\ny = """doc\n"""\n',
 ]
 
 
